@@ -15,6 +15,11 @@ def run(tier, seed):
     # threads sharing one profiler: times depend on the schedule, so only the hit counts are judged here
     res2 = e1common.run_property(PROP, MODULE, THEOREMS, tier, seed + 1, 40, 3000, [{'gen'}, set(), {'rec'}], 'hits', threads=True, ticks=(0,))
     e1common.merge_results(res, res2, 'threaded_part')
+    # single executions of a line lasting longer than 2**31 / 2**32 timer units (the counters are 64-bit), every reading
+    # method, plain enable()/disable() windows
+    res3 = e1common.run_property(PROP, MODULE, THEOREMS, tier, seed + 2, 48, 4000,
+                                 [{'bigtime'}, {'bigtime', 'gen'}, {'bigtime', 'snapmodes'}, {'bare', 'snapmodes'}], 'time', ticks=(0, 1, 7))
+    e1common.merge_results(res, res3, 'long_lines_part')
     res.assumptions.append('CLOCK_MONOTONIC is replaced by the shim: the real clock is not exercised (partial)')
     return res
 
